@@ -51,6 +51,23 @@ contract ConfigManager.ReloadFromRaw
   loop 1 invariant[C11,C16] @every_accepted_configuration_reaches_every_listener gNotified == old(gNotified) + idx1
   loop 1 invariant c.currentConfig == info && info.Config == gHashed && info.ConfigHash == sprint(gLastHash) && info.ExtraConfig == old(c.currentConfig.ExtraConfig)
 
+// "Coordinator and sidecars, in different processes, compute the same hash for the same configuration content": the coordinator
+// loads its configuration from a file, a sidecar is sent the bytes - a file is loaded exactly as its raw content, by the same
+// ReloadFromRaw (nothing of the file's name or directory enters the digest)
+ghost global gFileBytes int
+ghost global gRawReloads int
+on after io/ioutil.ReadFile(filename) in ConfigManager.ReloadFromFile
+   do gFileBytes = baseof(result0)
+on call ConfigManager.ReloadFromRaw(c, data) in ConfigManager.ReloadFromFile
+   assert[C16] @a_file_is_loaded_as_its_raw_content baseof(data) == gFileBytes
+   do gRawReloads = gRawReloads + 1
+contract ConfigManager.ReloadFromFile
+  requires c != nil && c.currentConfig != nil
+  requires forall k in 0..len(c.callbacks) :: c.callbacks[k] != nil
+  ensures[C16] @a_file_is_loaded_as_its_raw_content result == nil ==> gRawReloads == old(gRawReloads) + 1
+  ensures[C16] @nothing_is_published_without_a_reload gRawReloads == old(gRawReloads) ==> c.currentConfig == old(c.currentConfig)
+  modifies ConfigManager.currentConfig at {c}, ConfigInfo.* at {}, github.com/prometheus/prometheus/config.Config.* at {}, gLastHash, gHashed, gNotified, gFileBytes, gRawReloads
+
 // C13 "or scraping administratively stopped": the stop reason the coordinator sends becomes the one the proxy reads
 // (Proxy.getCurCfg is wired to ConfigManager.ConfigInfo); the configuration and its hash are not touched by it
 contract ConfigManager.UpdateExtraConfig
